@@ -3,6 +3,7 @@ package batching
 import (
 	"context"
 	"reduction.dev/reduction/util/verifhook"
+	"sync"
 )
 
 type BatchFetcher[T, R any] func(ctx context.Context, events []T) ([]R, error)
@@ -16,6 +17,9 @@ type ReorderFetcher[T, R any] struct {
 	fetchBatch BatchFetcher[T, R]
 	errChan    chan error
 	buffer     *ReorderBuffer[[]R]
+	// flushMu makes taking a batch and reserving its output slot one step, so
+	// that the size and time-out flushers reserve slots in batch order.
+	flushMu sync.Mutex
 }
 
 type NewReorderFetcherParams[T, R any] struct {
@@ -70,16 +74,19 @@ func (d *ReorderFetcher[T, R]) Flush(ctx context.Context) {
 
 // flush the current batch and then asynchronously run the `FetchBatch` callback.
 func (d *ReorderFetcher[T, R]) flush(ctx context.Context, token BatchToken) {
+	d.flushMu.Lock()
 	events := d.batcher.Flush(token)
 	if d.batcher == nil {
 		panic("batcher became nil")
 	}
 	if len(events) == 0 {
+		d.flushMu.Unlock()
 		return
 	}
 
 	verifhook.Point("batching.reorder.flushed", d)
 	seqNum := d.buffer.Reserve()
+	d.flushMu.Unlock()
 	go func() {
 		result, err := d.fetchBatch(ctx, events)
 		if err != nil {
